@@ -3,7 +3,7 @@
    publication - unless the live generation equals the one cached with the reader's record (the
    documented 32767 exception, or the record is already current). *)
 From Coq Require Import ZArith List Bool Arith NArith Lia.
-From CB Require Import Gen GenProofs Machine MachineFacts SeqlockInv SeqlockRA SeqlockMono.
+From CB Require Import Gen GenProofs Machine MachineFacts SeqlockInv GenCyc SeqlockRA SeqlockMono.
 Import ListNotations.
 Open Scope nat_scope.
 
@@ -622,4 +622,116 @@ Proof.
   destruct (sc_run_machine c j _ m r ret r' (F_cfg _ _ I) Er Hrun) as (k & m' & pre & Hk & Hm & Hpre & Er' & Ew & _).
   exists k, m', pre, ret, r'. repeat (split; [assumption|]).
   destruct Hres as [(A & B & C)|(A & B & _ & D)]; [left | right]; auto.
+Qed.
+
+(* ------------------------------------------------------------------ the exception, exactly *)
+(* the generation cached with the record is the value of the even store the record was accepted
+   from (needs the release/acquire invariants, hence the window condition on the history) *)
+Definition GenTagInv (c : cfg) (L : list event) (r : rst) : Prop :=
+  (r_cache_gen r = 0%Z /\ r_cache r = repeat 0%Z (c_cells c)) \/
+  exists q e, ev L q = Some e /\ e_kind e = KEven /\ e_val e = r_cache_gen r /\ r_cache r = rec_of (c_cells c) (e_att e).
+
+Lemma GenTagInv_new c L : GenTagInv c L (r_new c L).
+Proof. left. split; reflexivity. Qed.
+
+Lemma GenTagInv_app c L x r : GenTagInv c L r -> GenTagInv c (L ++ x) r.
+Proof. intros [H|(q & e & E & R)]; [left; exact H|]. right. exists q, e. split; [apply ev_app_l; exact E | exact R]. Qed.
+
+Lemma tag_step c L r ch r' it ret : safe_cfg c = true -> LogInv (c_cells c) L -> GenCyc L -> window_ok L r ->
+  RInv c L r -> GenTagInv c L r -> r_step c L r ch = Some (r', it, ret) -> GenTagInv c L r'.
+Proof.
+  intros Hs LI GC Hw RI TI S. destruct (r_step_cache c L r ch r' it ret S) as [[-> _]|(_ & Ec & Eg)].
+  - destruct (r_step_accept_pos c L r ch r' it Hs LI GC Hw RI S) as (e & E & _ & K & _ & Hc & _ & Hg & _).
+    right. exists (r_g1pos r), e. auto.
+  - destruct TI as [[A B]|(q & e & E & K & V & C)]; [left; rewrite Ec, Eg; auto|].
+    right. exists q, e. rewrite Ec, Eg. auto.
+Qed.
+
+Record MInv3 (c : cfg) (m : mstate) : Prop := {
+  M3_inv : MInv2 c m;
+  M3_tag : Forall (GenTagInv c (w_log (m_w m))) (m_rs m)
+}.
+
+Lemma MInv3_init c : MInv3 c (m_init c).
+Proof. constructor; [apply MInv2_init | constructor]. Qed.
+
+Theorem m_step_tag_win c m t m' o : safe_cfg c = true -> MInv3 c m -> real_token t ->
+  m_step m t = (m', o) -> Forall (window_ok (w_log (m_w m))) (m_rs m) -> MInv3 c m'.
+Proof.
+  intros Hs [I2 TG] Ht St Hwin. pose proof (M2_inv _ _ I2) as I.
+  destruct (m_step_mono_win c m t m' o Hs I2 Ht St Hwin) as (I2' & _).
+  constructor; [exact I2'|].
+  pose proof (M_cfg _ _ I) as Ec. pose proof (M_w _ _ I) as WI. pose proof (M_rs _ _ I) as RS.
+  unfold m_step in St. rewrite Ec in St. destruct t as [| j ch | | | | v]; try contradiction.
+  - destruct (w_step c (m_w m) _ _) as [w' [it|]] eqn:W; inversion St; subst m' o; clear St; [|exact TG].
+    destruct (w_step_log _ _ _ _ _ _ W) as (x & Ex). cbn [m_w m_rs]. rewrite Ex.
+    eapply Forall_impl; [|exact TG]. intros r. apply GenTagInv_app.
+  - destruct (nth_error (m_rs m) j) as [r|] eqn:Er; [|inversion St; subst; exact TG].
+    destruct (r_step c (w_log (m_w m)) r ch) as [[[r' it] ret]|] eqn:R; inversion St; subst m' o; clear St; [|exact TG].
+    cbn [m_w m_rs]. apply Forall_replace_nth; [exact TG|].
+    assert (Hw : window_ok (w_log (m_w m)) r) by (rewrite Forall_forall in Hwin; apply Hwin; eapply nth_error_In; eauto).
+    assert (Hr : RInv c (w_log (m_w m)) r) by (rewrite Forall_forall in RS; apply RS; eapply nth_error_In; eauto).
+    assert (Ht' : GenTagInv c (w_log (m_w m)) r) by (rewrite Forall_forall in TG; apply TG; eapply nth_error_In; eauto).
+    apply (tag_step c _ r ch r' it ret Hs (W_log _ _ WI) (W4_log _ (M_gen _ _ I)) Hw Hr Ht' R).
+  - destruct (w_pc (m_w m)); inversion St; subst m' o; exact TG.
+  - destruct (w_pc (m_w m)) eqn:PC; inversion St; subst m' o; clear St; try exact TG.
+    cbn [m_w m_rs]. destruct (header_valid (w_log (m_w m))) eqn:HV.
+    + destruct (w_restart_valid c (m_w m) HV) as (El & _). rewrite El. eapply Forall_impl; [|exact TG]. intros r. apply GenTagInv_app.
+    + destruct (m_rs m) as [|r0 rs] eqn:Ers; [constructor|].
+      exfalso. assert (NE : m_rs m <> []) by (rewrite Ers; discriminate). pose proof (M_valid _ _ I NE). congruence.
+  - destruct (header_valid (w_log (m_w m))) eqn:HV; inversion St; subst m' o; clear St; [|exact TG].
+    cbn [m_w m_rs]. apply Forall_app. split; [exact TG|]. constructor; [apply GenTagInv_new | constructor].
+Qed.
+
+Theorem m_run_tag_win c : safe_cfg c = true -> forall ts m m' o, MInv3 c m -> Forall real_token ts ->
+  m_run m ts = (m', o) -> run_windows m ts -> MInv3 c m'.
+Proof.
+  intros Hs. induction ts as [|t ts IH]; intros m m' o I Hts R Hw; cbn [m_run] in R.
+  - inversion R; subst. exact I.
+  - destruct (m_step m t) as [m1 o1] eqn:S1. destruct (m_run m1 ts) as [m2 o2] eqn:R2. inversion R; subst m' o; clear R.
+    inversion Hts as [|? ? Ht1 Ht2]; subst. cbn [run_windows] in Hw. rewrite S1 in Hw. cbn [fst] in Hw. destruct Hw as [Hw0 Hw1].
+    apply (IH m1 m2 o2 (m_step_tag_win c m t m1 o1 Hs I Ht1 S1 Hw0) Ht2 R2 Hw1).
+Qed.
+
+(* C03, second sentence, with the documented exception stated exactly.  The history may be of any
+   length (window condition as in C02_RA_window).  The call returns the newest completed
+   publication - freshly read, or from the cache when the cache already holds it - unless the
+   record in the cache was accepted from an even store that lies a positive multiple of 32767
+   publications before the newest one. *)
+Theorem fresh_machine_exact c ts m o j r q e : safe_cfg c = true -> (0 < c_retries c)%N ->
+  Forall real_token ts -> m_run (m_init c) ts = (m, o) -> run_windows (m_init c) ts ->
+  nth_error (m_rs m) j = Some r -> r_pc r = RIdle ->
+  latest LGen (w_log (m_w m)) = Some q -> ev (w_log (m_w m)) q = Some e -> e_kind e = KEven ->
+  exists k m' pre ret r', k <= c_cells c + 4 /\
+    m_run m (repeat (TR j None) k) = (m', pre ++ [ORet j ret (r_cache r')]) /\ Forall is_access pre /\
+    nth_error (m_rs m') j = Some r' /\ r_pc r' = RIdle /\ m_w m' = m_w m /\
+    (r_cache r' = rec_of (c_cells c) (e_att e) \/
+     (ret = RetCache /\ r_cache r' = r_cache r /\
+      exists q' e' d, ev (w_log (m_w m)) q' = Some e' /\ e_kind e' = KEven /\ r_cache r = rec_of (c_cells c) (e_att e') /\
+        (0 < d)%Z /\ Z.of_nat (evens_upto (w_log (m_w m)) q) = (Z.of_nat (evens_upto (w_log (m_w m)) q') + 32767 * d)%Z)).
+Proof.
+  intros Hs Hret Hts R Hw Er Hpc Hq Ee Ke.
+  destruct (fresh_machine c ts m o j r q e Hs Hret Hts R Er Hpc Hq Ee Ke) as (k & m' & pre & ret & r' & Hk & Hrun & Hpre & Er' & Hpc' & Ew & Hres).
+  exists k, m', pre, ret, r'. repeat (split; [assumption|]).
+  destruct Hres as [(_ & Hc & _)|(Hrc & Hc & Hg)]; [left; exact Hc|].
+  pose proof (m_run_tag_win c Hs ts (m_init c) m o (MInv3_init c) Hts R Hw) as I3.
+  pose proof (M2_inv _ _ (M3_inv _ _ I3)) as I. pose proof (M_w _ _ I) as WI. pose proof (W_log _ _ WI) as LI.
+  pose proof (W4_log _ (M_gen _ _ I)) as GC.
+  assert (TI : GenTagInv c (w_log (m_w m)) r).
+  { pose proof (M3_tag _ _ I3) as TG. rewrite Forall_forall in TG. apply TG. eapply nth_error_In; eauto. }
+  set (L := w_log (m_w m)) in *.
+  pose proof (GC_even _ GC q e Ee Ke) as Ve. pose proof (evens_upto_pos L q e Ee Ke) as Kq.
+  destruct TI as [[Hz _]|(q' & e' & Ee' & Ke' & Ve' & Hc')].
+  - exfalso. rewrite Hz in Hg. rewrite Ve in Hg. destruct (gv_pos (evens_upto L q) ltac:(lia)) as (_ & NZ & _). congruence.
+  - pose proof (GC_even _ GC q' e' Ee' Ke') as Vg'. pose proof (evens_upto_pos L q' e' Ee' Ke') as Kq'.
+    destruct (latest_spec _ _ _ Hq) as (e0 & Ee0 & _ & Mq). 
+    pose proof (L_kind_gen _ _ LI q' e' Ee' (or_intror Ke')) as Lg'. pose proof (Mq q' e' Ee' Lg') as Hqq.
+    destruct (Nat.eq_dec q' q) as [->|Hne].
+    + left. rewrite Hc, Hc'. rewrite Ee in Ee'. inversion Ee'. reflexivity.
+    + right. split; [exact Hrc|]. split; [exact Hc|].
+      assert (Hlt : q' < q) by lia. pose proof (evens_upto_even_strict L q' q e Hlt Ee Ke) as Hst.
+      assert (Hgv : gv (evens_upto L q') = gv (evens_upto L q)) by congruence.
+      assert (H1 : 0 < evens_upto L q') by lia. assert (H2 : evens_upto L q' <= evens_upto L q) by lia.
+      destruct (gv_eq_multiple _ _ H1 H2 Hgv) as (d & Hd & Hmul).
+      exists q', e', d. split; [exact Ee'|]. split; [exact Ke'|]. split; [exact Hc'|]. split; [|exact Hmul]. clear - Hst Hmul Hd. lia.
 Qed.
